@@ -466,10 +466,21 @@ def check(ctx):
                        "constructor accepts modes %s beyond read/truncating-write" % sorted(bad))
 
     # ---- R4 reading never writes --------------------------------------------------------------
-    def direct_destructive(fi):
+    def direct_destructive(fi, mode_const=None):
         res = []
+        feasible_nodes = None
+        if mode_const is not None and "mode" in fi.params:
+            # context: the caller passes a constant mode -> only sites feasible under mode == <const>
+            cfg = CFG(fi.fn)
+            W = cfg.worlds_at(make_atom_of(_path_aliases(fi.fn) or {"filename"}), init={("mode", mode_const): True},
+                              transfer=_transfer_factory(cfg))
+            feasible_nodes = (cfg, {nd for nd in cfg.nodes() if any(_feasible(dict(w)) for w in W[nd])})
         for n in walk_no_nested(fi.fn):
             if isinstance(n, ast.Call):
+                if feasible_nodes is not None:
+                    nd = feasible_nodes[0].node_containing(n)
+                    if nd is not None and nd not in feasible_nodes[1]:
+                        continue
                 c = classify_call(n)
                 d = call_name(n)
                 if c is not None:
@@ -515,6 +526,7 @@ def check(ctx):
                 d = call_name(n)
                 if not d:
                     continue
+                out_len = len(out)
                 if d.startswith("self.") and d.count(".") == 1 and fi.cls:
                     pre = fi.qual.rsplit(".", 1)[0]
                     t = funcs.get((fi.rel, pre + "." + d[5:]))
@@ -527,7 +539,18 @@ def check(ctx):
                         t = cands[0] if len(cands) == 1 else None
                     if t:
                         out.append(t)
-        return out
+                # attach the constant mode argument, when there is one, to the edge
+                if len(out) > out_len:
+                    t = out[-1]
+                    mc = None
+                    if "mode" in t.params:
+                        cps = [p for p in t.params if p != "self"]
+                        mv = kwarg(n, "mode", cps.index("mode"))
+                        mc = const(mv) if mv is not None else None
+                        if isinstance(mc, bytes):
+                            mc = mc.decode()
+                    out[-1] = (t, mc if isinstance(mc, str) else None)
+        return [(x if isinstance(x, tuple) else (x, None)) for x in out]
 
     for (rel, q), fi in sorted(funcs.items()):
         name = q.split(".")[-1]
@@ -536,18 +559,18 @@ def check(ctx):
         if name in ("read_as_traj",) or True:
             pass
         seen = set()
-        stack = [(fi, [q])]
+        stack = [(fi, [q], None)]
         found = []
         while stack:
-            f, path = stack.pop()
-            if (f.rel, f.qual) in seen or len(path) > 4:
+            f, path, mc = stack.pop()
+            if (f.rel, f.qual, mc) in seen or len(path) > 4:
                 continue
-            seen.add((f.rel, f.qual))
-            for (n, what) in direct_destructive(f):
+            seen.add((f.rel, f.qual, mc))
+            for (n, what) in direct_destructive(f, mc):
                 # open(mode=<variable>) inside e.g. md.open is a factory, not a read entry point
                 found.append((n, what, path, f))
-            for t in callees(f):
-                stack.append((t, path + [t.qual]))
+            for (t, tmc) in callees(f):
+                stack.append((t, path + [t.qual], tmc))
         if found:
             for (n, what, path, f) in found:
                 ctx.violated("C20-R4", n, f.rel, q, what,
